@@ -280,6 +280,7 @@ type c03X struct {
 	qn     int
 	onQ    map[int]func() // run before the k-th WrapConnection call of the current connection
 	asnSeq uint
+	resetPanic any
 }
 
 var c03Extras sync.Map // *c34World -> *c03X
@@ -333,12 +334,32 @@ func c03SetupWorld(w *c34World, wi int) (*c03X, error) {
 	return x, nil
 }
 
+// reset starts a new statistics epoch the way the station's statistics loop does.  A panic in it is a
+// crash of the station as well (the loop's goroutine is not recovered either): recorded, reported by the
+// caller.
 func (x *c03X) reset(print bool) {
+	defer func() {
+		if p := recover(); p != nil {
+			x.mu.Lock()
+			if x.resetPanic == nil {
+				x.resetPanic = p
+			}
+			x.mu.Unlock()
+		}
+	}()
 	if print {
 		x.w.cm.PrintAndReset(x.logger)
 	} else {
 		x.w.cm.Reset()
 	}
+}
+
+func (x *c03X) takeResetPanic() any {
+	x.mu.Lock()
+	defer x.mu.Unlock()
+	p := x.resetPanic
+	x.resetPanic = nil
+	return p
 }
 
 // c03ParsePeer: "ip" or "ip/16" (an IPv4 address in 16-byte form)
@@ -408,7 +429,9 @@ func (h *c03Hooked) SetReadDeadline(t time.Time) error  { return h.s.SetReadDead
 func (h *c03Hooked) SetWriteDeadline(t time.Time) error { return h.s.SetWriteDeadline(t) }
 
 // c03Resets parses "P0,R2,Q1": P<k> PrintAndReset / R<k> Reset before the k-th read (k = 0: before the
-// handler is called), Q<k> PrintAndReset before the k-th classification call.
+// handler is called), Q<k> PrintAndReset before the k-th classification call, N<k> before the k-th read:
+// PrintAndReset, then a whole other connection from the same source to a phantom of the OTHER address
+// family is handled (the new epoch then knows the ASN in the other family's map only).
 type c03Reset struct {
 	kind byte
 	k    int
@@ -420,7 +443,7 @@ func c03ParseResets(s string) ([]c03Reset, error) {
 		return nil, nil
 	}
 	for _, f := range strings.Split(s, ",") {
-		if len(f) < 2 || !strings.ContainsRune("PRQ", rune(f[0])) {
+		if len(f) < 2 || !strings.ContainsRune("PRQN", rune(f[0])) {
 			return nil, fmt.Errorf("bad reset %q", f)
 		}
 		k, err := strconv.Atoi(f[1:])
@@ -460,6 +483,8 @@ func (x *c03X) conn(c *c03Case, remote net.Addr) (conn *c34Conn, hooked *c03Hook
 		switch {
 		case r.kind == 'Q':
 			onQ[r.k] = func() { x.reset(true) }
+		case r.kind == 'N' && r.k > 0:
+			hooked.before[r.k] = func() { x.reset(true); x.nested(c, remote) }
 		case r.k > 0:
 			hooked.before[r.k] = func() { x.reset(r.kind == 'P') }
 		}
@@ -468,6 +493,18 @@ func (x *c03X) conn(c *c03Case, remote net.Addr) (conn *c34Conn, hooked *c03Hook
 	x.onQ = onQ
 	x.mu.Unlock()
 	return newC34Real(hooked, remote), hooked, atStart, nil
+}
+
+// nested handles a whole short connection from the same source to a phantom of the other family, on the
+// goroutine of the caller (a hook inside a Read of the outer connection; the handler holds no lock there).
+// A panic in it travels up through the outer handler and is reported for the outer case.
+func (x *c03X) nested(c *c03Case, remote net.Addr) {
+	ph := c34PhMany
+	if net.ParseIP(c.phantom).To4() != nil {
+		ph = c34PhV6
+	}
+	nc := newC34Scripted([]c34Ev{{kind: "d", data: bytes.Repeat([]byte{0x5a}, 40)}, {kind: "d", data: bytes.Repeat([]byte{0xa5}, 40)}, {kind: "eof"}}, remote)
+	x.w.cm.handleNewTCPConn(x.w.rm, nc, net.ParseIP(ph))
 }
 
 // ---------------------------------------------------------------------------------------------
@@ -602,7 +639,7 @@ func (g *c03Gen) statsEpochs(thorough bool) {
 			var resets []string
 			resets = append(resets, "", "P0", "R0", "Q1", "Q2", fmt.Sprintf("Q%d", 3*len(seg)))
 			for k := 1; k <= nReads; k++ {
-				resets = append(resets, fmt.Sprintf("%c%d", "PR"[k%2], k))
+				resets = append(resets, fmt.Sprintf("%c%d", "PR"[k%2], k), fmt.Sprintf("N%d", k))
 			}
 			var all []string
 			for k := 0; k <= nReads; k++ {
